@@ -255,3 +255,127 @@ def signature(st, obs):
   if st["a"] == "Response":
     sig["iface"] = "none" if st["args"].get("i") == "none" else "some"
   return sig
+
+
+# ----------------------------------------------------------------------------------------------------------
+NETADDR = {"r1": "10.0.0.1", "r2": "10.0.0.2", "r3": "10.0.0.3", "r4": "10.0.0.4", "h": "10.0.9.9"}
+
+
+class NetAdapter(object):
+  """RipNet.tla: several real routers; the harness is the wire (a FIFO of datagram bytes per directed link)."""
+
+  def __init__(self, routers, links, stubs, ifof, T, G, R, S, mtu=None):
+    env.reset()
+    self.names = Names(NETADDR)
+    self.routers = list(routers)
+    self.links = set(frozenset(l) for l in links)
+    self.up = set(self.links)
+    self.stubs = [tuple(s) for s in stubs]
+    self.ifof = dict(ifof)
+    self.par = dict(T=T, G=G, R=R, S=S, mtu=mtu)
+    self.rt = {}
+    self.chan = {}
+    self.sent = []
+
+  def close(self):
+    env.reset()
+
+  def neigh(self, r):
+    return [s for s in self.routers if frozenset((r, s)) in self.links]
+
+  def _boot(self, per):
+    p = self.par
+    for r in self.routers:
+      around = self.neigh(r) + [h for h, at in self.stubs if at == r]
+      ifaces = sorted(set(self.ifof[s] for s in around))
+      m = env.MiniRouter(r, ifaces, p["T"], p["G"], p["R"], mtu=p["mtu"], periodic=(p["S"], per[r]))
+      m.add_iface_route(self.ifof[r], IPAddr(NETADDR[r]))
+      self.rt[r] = m
+    for h, at in self.stubs:        # the host's one and only hello: its own /32
+      self.rt[at].receive(self.ifof[h], NETADDR[h], env.rip_bytes(RIP.RIP_RESPONSE, [(NETADDR[h], 32, 1, 0, "inet")]))
+
+  def _distribute(self, r):
+    """what router r just sent goes to every live neighbour on that interface"""
+    m = self.rt[r]
+    for iface, data in m.sent:
+      self.sent.append((iface, data))
+      for s in self.neigh(r):
+        if self.ifof[s] == iface and frozenset((r, s)) in self.up:
+          self.chan.setdefault((r, s), []).append(data)
+    m.sent = []
+
+  def _find(self, r, kind):
+    for t, due in env.timers():
+      if not t._cancelled and env.cb_kind(t) == kind and getattr(t._callback, "__self__", None) is self.rt[r]:
+        if due != env.clock.now:
+          return None, "%s timer of %s due in %s" % (kind, r, env.remaining(due))
+        return t, None
+    return None, "no %s timer of %s" % (kind, r)
+
+  def _obs(self, err=None):
+    env.settle()
+    sweep_cancelled()
+    net = {}
+    mine = set()
+    for r, m in self.rt.items():
+      o, mm = observe(m, self.names)
+      net[r] = o
+      mine |= mm
+    sent = []
+    wires = set()
+    for iface, data in self.sent:
+      w, ents = env.rip_parse(data)
+      wires.add(w)
+      sent.extend([iface, self.names.key(ip, bits), metric] for ip, bits, metric in ents)
+    wires.discard("ok")
+    o = dict(net=net, q=sorted([s, r, len(q)] for (s, r), q in self.chan.items() if q), sent=sorted(sent),
+             orph=orphans(mine), wire="ok" if not wires else ";".join(sorted(wires)))
+    if err:
+      o["err"] = err
+    return o
+
+  def step(self, a, args):
+    self.sent = []
+    if a == "Boot":
+      self._boot(args["per"])
+    elif a in ("Send", "Fire"):
+      t, err = self._find(args["r"], "per" if a == "Send" else "trig")
+      if t is None:
+        return self._obs(err)
+      env.release(t)
+      self._distribute(args["r"])
+    elif a == "Deliver":
+      q = self.chan.get((args["s"], args["r"]))
+      if not q:
+        return self._obs("nothing in flight from %s to %s" % (args["s"], args["r"]))
+      self.rt[args["r"]].receive(self.ifof[args["s"]], NETADDR[args["s"]], q.pop(0))
+    elif a in ("Timeout", "Garbage"):
+      t, err = find_entry_timer(self.rt[args["r"]], self.names, args["k"], "to" if a == "Timeout" else "gc")
+      if t is None:
+        return self._obs(err)
+      env.release(t)
+    elif a == "LinkDown":
+      l = frozenset(args["l"])
+      self.up.discard(l)
+      for (s, r) in list(self.chan):
+        if frozenset((s, r)) == l:
+          self.chan[(s, r)] = []
+    elif a == "Advance":
+      env.clock.advance(args["d"])
+    else:
+      raise Machinery("unknown action %r" % (a,))
+    for m in self.rt.values():        # a router that sends outside its own step (it must not) would show here
+      if m.sent:
+        self._distribute(m.name)
+    return self._obs()
+
+  def signature(self, st, obs):
+    sig = {"action": st["a"], "net": True}
+    exp = st["exp"]
+    if not isinstance(obs, dict) or "EXC" in obs:
+      sig["observed"] = "exception:" + (obs.get("EXC", "?") if isinstance(obs, dict) else "?")
+      return sig
+    sig["fields"] = sorted(k for k in set(exp) | set(obs) if obs.get(k) != exp.get(k))
+    if "net" in sig["fields"] and isinstance(obs.get("net"), dict):
+      sig["routers"] = sorted(r for r in exp["net"] if obs["net"].get(r) != exp["net"][r])
+    return sig
